@@ -256,6 +256,10 @@ class Backend(ABC):
             List of converted queries
         """
         try:
+            # The result of a previous conversion of this rule object must not survive a failing
+            # conversion. Otherwise correlation rules embed the stale query.
+            rule.reset_conversion_result()
+
             # Initialize processing pipeline if not already done or if it was initialized for
             # another output format (each output format can have its own pipeline).
             if (
@@ -704,6 +708,7 @@ class Backend(ABC):
             NotImplementedError: If the conversion for the given correlation rule type is not implemented.
         """
         try:
+            rule.reset_conversion_result()
             if self.correlation_methods is None:
                 raise NotImplementedError("Backend does not support correlation rules.")
             method = method or self.default_correlation_method
